@@ -128,3 +128,11 @@ ACCUM_TABLE = {
 OFFSTEP_EXCEPTIONS = {
     "text_layout.LayoutSegment.subseg:lines.append((1, spos - 1))": "a (columns, offset) two-tuple is padding with a cursor hint: the offset is only compared with cursor positions (calc_coords / calc_pos), never used to slice the text",
 }
+
+# OPTCALL: optional-protocol calls whose hasattr test is made on an alias of the receiver.
+_FRAME_FOCUS = "guarded by `hasattr(self.focus, 'get_cursor_coords')` above: self.focus is exactly the part (header / body / footer) selected by the focus_position the branch tests"
+OPTCALL_EXCEPTIONS = {
+    "widget.frame.Frame.get_cursor_coords:self.header.get_cursor_coords((maxcol,))": _FRAME_FOCUS,
+    "widget.frame.Frame.get_cursor_coords:self.body.get_cursor_coords((maxcol, maxrow - hrows - frows))": _FRAME_FOCUS,
+    "widget.frame.Frame.get_cursor_coords:self.footer.get_cursor_coords((maxcol,))": _FRAME_FOCUS,
+}
